@@ -38,8 +38,8 @@ type EngCase struct {
 	IDs           bool   `json:"ids"`
 	TagSuffix     string `json:"tag_suffix"`
 	ShotUs        []int  `json:"shot_us"`
-	FaultAtItem   int    `json:"provider_fault_at_item"`       // error mode
-	CancelAfter   int    `json:"cancel_after_reports"`         // cancel mode: trigger = this many reports completed
+	FaultAtItem   int    `json:"provider_fault_at_item"`        // error mode
+	CancelAfter   int    `json:"cancel_after_reports"`          // cancel mode: trigger = this many reports completed
 	CancelDelayUs int    `json:"cancel_delay_after_trigger_us"` // cancel mode
 	Repeat        int    `json:"repeat"`
 }
